@@ -8,21 +8,20 @@ CONFIG = {
     "level": "proof",
     "trusted_base": [
         KERNEL, TRANSLATOR + " (ImportsGen.v, shared with C02)", CORR, HARNESS,
-        "modelled, not verified: as for C02 (strcase, path.Join, protocompile's relative-name resolution, the BCL front end)",
+        "modelled, not verified: as for C02 (strcase, path.Join, protocompile's linker beyond qualifyTypeNames + symbol table, the BCL front end)",
     ],
     "assumptions": [
         "the compiler model of C02 (model/J5s{Ast,Walk,Convert,Link}.v); both versions of every generated package are compiled by the real compiler and by the model, and must agree",
     ],
     "mult_search": 3,
-    "refuted": ["C13_append_to_empty_enum_refuted", "C13_append_to_empty_nested_enum_refuted"],
+    "refuted": [],
     "partial": [
-        "C13_full is the property for all append edits except one class (edit_ok / enum_append_ok in seq_ok): an option ending in UNSPECIFIED appended to an enum WITHOUT options, for which the property is refuted (C13_append_to_empty_enum_refuted, known finding). The class is exact: C13_append_option_exact (appending one option keeps every earlier enum value iff the enum has options, or the option does not end in UNSPECIFIED, or it spells the implicit zero value itself); other options appended to enums without options are covered (C13_empty_enum_other_options_preserve)",
-        "C13_full is proved for the model of C02 (same distance to the code: main files, sub-package files, link boundary, symbol table are modelled and tied by whole-descriptor correspondence; entities, rules, options, descriptions are outside the model). Hypothesis seq_ok: every edit addresses a source file and leaves the bundle valid; `valid` is tied to acceptance by the real compiler on both sides of every generated pair. An option ending in UNSPECIFIED appended to an enum without options is the refuted case",
+        "C13_full is proved for the model of C02 (same distance to the code: main files, sub-package files, link boundary, symbol table are modelled and tied by whole-descriptor correspondence; entities, rules, options, descriptions are outside the model). Hypothesis seq_ok: every edit addresses a source file and leaves the bundle valid; `valid` is tied to acceptance by the real compiler on both sides of every generated pair. No class of append edits is excluded (until fix a65e1f2: an option ending in UNSPECIFIED appended to an enum without options)",
     ],
 }
 
 MANIFEST = {
-    "text": 'Theorems over the C02 compiler model. Edits (J5sEdit.edit): a field at the end of an object / oneof / request / response / topic message, or of any inline type or nested declaration inside one, at any depth (through array and map items); an option at the end of a declared, nested or inline enum (not: an option ending in UNSPECIFIED at the end of an enum without options - the refuted class, exact by C13_append_option_exact); a nested declaration at the end of an object / oneof; a declaration at the end of a file. (1) mapProperties(ps ++ [p]) = mapProperties(ps) ++ [(next, p)]; a run of properties with one more at the end converts to the same fields, nested messages and enums followed by the new ones; an appended option keeps every earlier value (name, number). (2) Every edit, and every sequence of edits, extends the source file in the sense of a syntactic relation (file_src_ext; props_ext / nesteds_ext for the deep targets). (3) Extended source files convert, in environments that only grow, to descriptors into which the old ones embed (files_ext: same names and kinds, old fields a prefix with identical name / JSON name / number / type / label / optionality / type name, old nested messages, enums, enum values, services, methods - types and HTTP rule - all present and unchanged); exports only grow, so references keep resolving. (4) C13_full: for every valid bundle, package and sequence of edits each leaving the bundle valid, the edited package compiles (conversion + link) and the old linked descriptors embed into the new ones; induction over the edit list. Every generated pair is compiled by the real compiler and by the model, the generated edit list is handed to Coq as J5sEdit.edit terms and the model applied to the edited source must reproduce the real output, the embedding relation of C13_full is evaluated in Coq on the REAL before / after descriptors of every pair by a boolean test proved sound for it (C13_embedding_checker_sound), and a direct oracle in Go checks restriction-equality of the old elements (fully qualified type names included) independently.',
-    "note": 'Proved at full strength for the model (C13_full), deep targets included (C13_append_anywhere_extends, C13_deep_edits_preserve). Defect found and repaired in /repo: 2ef7c92 (an appended inline type named like an enclosing message captured the relative type names of existing fields; shared root cause with C02) - regression theorem C13_fixed_append_keeps_existing and corpus case. Known finding (not repaired: the repair would change what the compiler emits for existing sources): an option ending in UNSPECIFIED appended to an enum WITHOUT options becomes its first option and therefore the zero value - `enum Status {}` has STATUS_UNSPECIFIED = 0, with `option OLD_UNSPECIFIED` appended value 0 is STATUS_OLD_UNSPECIFIED (C13_append_to_empty_enum_refuted; corpus pair replayed on the real compiler every run). Same trusted base as C02.',
+    "text": 'Theorems over the C02 compiler model. Edits (J5sEdit.edit): a field at the end of an object / oneof / request / response / topic message, or of any inline type or nested declaration inside one, at any depth (through array and map items); an option at the end of a declared, nested or inline enum, whatever it is called and whether or not the enum has options (C13_append_option_always, C13_zero_value_fixed: value 0 is <PREFIX>UNSPECIFIED whatever the options are); a nested declaration at the end of an object / oneof; a declaration at the end of a file. (1) mapProperties(ps ++ [p]) = mapProperties(ps) ++ [(next, p)]; a run of properties with one more at the end converts to the same fields, nested messages and enums followed by the new ones; an appended option keeps every earlier value (name, number). (2) Every edit, and every sequence of edits, extends the source file in the sense of a syntactic relation (file_src_ext; props_ext / nesteds_ext for the deep targets). (3) Extended source files convert, in environments that only grow, to descriptors into which the old ones embed (files_ext: same names and kinds, old fields a prefix with identical name / JSON name / number / type / label / optionality / type name, old nested messages, enums, enum values, services, methods - types and HTTP rule - all present and unchanged); exports only grow, so references keep resolving. (4) C13_full: for every valid bundle, package and sequence of edits each leaving the bundle valid, the edited package compiles (conversion + link) and the old linked descriptors embed into the new ones; induction over the edit list. Every generated pair is compiled by the real compiler and by the model, the generated edit list is handed to Coq as J5sEdit.edit terms and the model applied to the edited source must reproduce the real output, the embedding relation of C13_full is evaluated in Coq on the REAL before / after descriptors of every pair by a boolean test proved sound for it (C13_embedding_checker_sound), and a direct oracle in Go checks restriction-equality of the old elements (fully qualified type names included) independently.',
+    "note": 'Proved at full strength for the model (C13_full), deep targets included (C13_append_anywhere_extends, C13_deep_edits_preserve). Defect found and repaired in /repo: 2ef7c92 (an appended inline type named like an enclosing message captured the relative type names of existing fields; shared root cause with C02) - regression theorem C13_fixed_append_keeps_existing and corpus case. Second defect repaired in /repo: a65e1f2 (an option ending in UNSPECIFIED appended to an enum WITHOUT options became its first option and therefore the zero value - `enum Status {}` has STATUS_UNSPECIFIED = 0, with `option OLD_UNSPECIFIED` appended value 0 was STATUS_OLD_UNSPECIFIED; now only UNSPECIFIED / <PREFIX>UNSPECIFIED spell the zero value) - regression theorems C13_fixed_append_to_empty_enum, C13_fixed_append_to_empty_nested_enum, C13_empty_enum_any_option_preserves and corpus pairs; until then this was the recorded finding and C13_full excluded the class. Same trusted base as C02.',
     "technique": "Rocq/Coq proof (embedding of the old descriptors under a syntactic extension relation, mutual induction on the relation; induction over edit lists) + in-Coq differential correspondence on both versions + direct restriction-equality oracle on the real descriptors",
 }
